@@ -126,18 +126,18 @@ Proof.
   - apply IHForall2.
 Qed.
 
-(* without `m_clean` the statement is false, even without any rewind: with preallocated chunks
-   (store option PreallocFiles) a read that starts in the flushed part of the current chunk and
-   ends in the write buffer returns the preallocated zero bytes *)
+(* without `m_clean` the statement is false: SetOffset into an earlier chunk leaves the later chunk
+   files in the directory, and a ReadAt beyond the end of the current chunk walks into them:
+   chunk size 4, append 10 bytes, SetOffset 2 (Size 2), ReadAt(2 bytes, 4) returns "45" *)
 Theorem multi_refines_log_refuted : exists fs pre meta o ops,
   0 < fs /\ opts_valid o = true /\ nocap o = true /\ ops_nocap ops = true /\
   ~ Forall2 out_match (m_run (m_create fs pre meta o) ops)
                       (spec_run (log_init (zeros (if pre then fs else 0)) meta o) ops).
 Proof.
-  exists 8, true, [], (mko false 16 false false), [Append [97;98;99;100]; Flush; Append [101;102]; ReadAt 6 8].
+  exists 4, false, [], (mko false 16 false false), [Append [48;49;50;51;52;53;54;55;56;57]; SetOffset 2; ReadAt 2 4].
   splits; try reflexivity. intros H.
-  assert (X : out_match (ORead [97;98;99;100;0;0] false) (ORead [97;98;99;100;101;102] false)).
-  { eapply (Forall2_nth' _ _ _ 3%nat); [exact H| |]; vm_compute; reflexivity. }
+  assert (X : out_match (ORead [52;53] false) (ORead [] true)).
+  { eapply (Forall2_nth' _ _ _ 2%nat); [exact H| |]; vm_compute; reflexivity. }
   destruct X as [X|X]; discriminate X.
 Qed.
 
